@@ -209,7 +209,7 @@ theorem triangular_hasDerivAt_cdf (d : Triangular ℝ) (h1 : d.f_min ≤ d.f_mod
       rw [if_neg (not_le.mpr hy.1), if_pos hy.2.le]
     have hp : Triangular.pdf d x =
         2 * (x - d.f_min) / ((d.f_max - d.f_min) * (d.f_mode - d.f_min)) := by
-      unfold Triangular.pdf; model_norm; rw [if_pos ⟨ha.le, hc.le⟩]
+      unfold Triangular.pdf; model_norm; rw [if_neg hxc, if_pos ⟨ha.le, hc⟩]
     rw [hp]
     have g := (hasDerivAt_id' x).sub_const d.f_min
     refine (((g.mul g).div_const _).congr_deriv ?_).congr_of_eventuallyEq hE
@@ -225,7 +225,7 @@ theorem triangular_hasDerivAt_cdf (d : Triangular ℝ) (h1 : d.f_min ≤ d.f_mod
     have hp : Triangular.pdf d x =
         2 * (d.f_max - x) / ((d.f_max - d.f_min) * (d.f_max - d.f_mode)) := by
       unfold Triangular.pdf; model_norm
-      rw [if_neg (fun c => absurd c.2 (not_le.mpr hc)), if_pos ⟨hc, hb.le⟩]
+      rw [if_neg hxc, if_neg (fun c => absurd c.2 (not_lt.mpr hc.le)), if_pos ⟨hc, hb.le⟩]
     rw [hp]
     have g := (hasDerivAt_id' x).const_sub d.f_max
     refine ((((g.mul g).div_const _).const_sub 1).congr_deriv ?_).congr_of_eventuallyEq hE
@@ -277,7 +277,7 @@ theorem triangular_continuous_cdf (d : Triangular ℝ) (h1 : d.f_min ≤ d.f_mod
     obtain rfl : x = d.f_min := hx
     rw [if_pos h1]; simp
 
-/-- Triangular: `∫ a..b pdf = cdf b - cdf a` for every `a ≤ b` (the wrong value of `pdf` at `x = min = mode` is a single point and does not affect integrals) -/
+/-- Triangular: `∫ a..b pdf = cdf b - cdf a` for every `a ≤ b` (the three kinks are single points and do not affect integrals) -/
 theorem triangular_integral_pdf (d : Triangular ℝ) (h1 : d.f_min ≤ d.f_mode)
     (h2 : d.f_mode ≤ d.f_max) (h3 : d.f_min ≠ d.f_max) {a b : ℝ} (hab : a ≤ b) :
     ∫ t in a..b, Triangular.pdf d t = Triangular.cdf d b - Triangular.cdf d a :=
@@ -288,20 +288,19 @@ theorem triangular_integral_pdf (d : Triangular ℝ) (h1 : d.f_min ≤ d.f_mode)
     (triangular_pdf_nonneg d h1 h2) hab
 
 
-/-- Triangular with `mode = min` (accepted by `new`): the model's `pdf` at `x = min = mode` is the
-    quotient `0/0` (`= 0` over ℝ, NaN in IEEE arithmetic — see `TriangularFloat.lean`), whereas the
-    cdf has right derivative `2/(max-min)` there, which is the value of the true density (its
-    maximum).  So `pdf` is wrong at that single point. -/
-theorem triangular_pdf_min_eq_mode_counterexample (d : Triangular ℝ) (hm : d.f_mode = d.f_min)
+/-- Triangular with `mode = min` (accepted by `new`): at `x = min = mode` the `pdf` is
+    `2/(max-min)`, which is the right derivative of the cdf there (the maximum of the density).
+    (Before the repair of `Triangular::pdf` the code evaluated `0/0` at this point.) -/
+theorem triangular_pdf_min_eq_mode (d : Triangular ℝ) (hm : d.f_mode = d.f_min)
     (hab : d.f_min < d.f_max) :
-    Triangular.pdf d d.f_min = 0 / 0 ∧ Triangular.pdf d d.f_min = 0 ∧
-      HasDerivWithinAt (Triangular.cdf d) (2 / (d.f_max - d.f_min)) (Set.Ici d.f_min) d.f_min ∧
-      Triangular.pdf d d.f_min ≠ 2 / (d.f_max - d.f_min) := by
-  have hp : Triangular.pdf d d.f_min = 0 / 0 := by
+    Triangular.pdf d d.f_min = 2 / (d.f_max - d.f_min) ∧
+      HasDerivWithinAt (Triangular.cdf d) (Triangular.pdf d d.f_min) (Set.Ici d.f_min) d.f_min := by
+  have hp : Triangular.pdf d d.f_min = 2 / (d.f_max - d.f_min) := by
     unfold Triangular.pdf; model_norm
-    rw [hm, if_pos ⟨le_rfl, le_rfl⟩]; simp
+    rw [hm, if_pos rfl]
   have hba : d.f_max - d.f_min ≠ 0 := (sub_pos.mpr hab).ne'
-  refine ⟨hp, by rw [hp]; simp, ?_, ?_⟩
+  refine ⟨hp, ?_⟩
+  rw [hp]
   · have g := (hasDerivAt_id' d.f_min).const_sub d.f_max
     have hG : HasDerivAt (fun y => 1 - (d.f_max - y) * (d.f_max - y) /
         ((d.f_max - d.f_min) * (d.f_max - d.f_min))) (2 / (d.f_max - d.f_min)) d.f_min :=
@@ -315,10 +314,6 @@ theorem triangular_pdf_min_eq_mode_counterexample (d : Triangular ℝ) (hm : d.f
       · rw [← h, if_pos le_rfl]; field_simp; ring
     · unfold Triangular.cdf; model_norm
       rw [if_pos le_rfl]; field_simp; ring
-  · rw [hp]
-    intro h
-    have h2 : (2:ℝ) / (d.f_max - d.f_min) ≠ 0 := div_ne_zero two_ne_zero hba
-    exact h2 (by simpa using h.symm)
 
 example : ∃ d : Triangular ℝ, d.f_mode = d.f_min ∧ d.f_min < d.f_max ∧
     d.f_min ≤ d.f_mode ∧ d.f_mode ≤ d.f_max ∧ d.f_min ≠ d.f_max :=
